@@ -16,7 +16,7 @@ ASSUME = ['red-zone tools miss far and intra-object overflows; the guard allocat
 
 
 def harnesses(thorough):
-    k = 4 if thorough else 1
+    k = 2 if thorough else 1
     return [
         with_args(H['perm'], 'perm', [], 500 * k, 500 * k),
         with_args(H['aead'], 'aead', ['--arg', 'enc'], 4000 * k, 4000 * k),
@@ -34,8 +34,11 @@ def harnesses(thorough):
 def specs(thorough):
     if thorough:
         out = []
-        for be in ('asm', 'c64', 'c32', 'dxor', 'generic'):
+        for be in ('asm', 'c64', 'c32'):
             for sh in core.ALL_SHARES:
+                out.append((Cfg(be, sh), 'asan'))
+        for be in ('dxor', 'generic'):
+            for sh in ((4, 2, 4), (3, 1, 3), (2, 2, 2)):
                 out.append((Cfg(be, sh), 'asan'))
         out += [(Cfg(be), 'rel') for be in ('asm', 'c64', 'c32', 'dxor', 'generic')]
         return out
